@@ -181,6 +181,12 @@ def runC17 (fields : List String) (obs : String) : String × String × String :=
              | some v => if kindOfS v == pKind outk then sText v else "err"
              | none => "err"
            resT ++ "|" ++ ";".intercalate (seen.map stateText)
+       -- `?`: the harness could not read the trace of visited states (its format is debugging output and
+       -- may change): only the result is compared
+       if obs.endsWith "|?" then
+         let cut (t : String) : String := (t.splitOn "|").headD ""
+         (cut model ++ "|?", (if cut obs == cut exp then "ok" else "bad:expected " ++ cut exp ++ " (visited states unavailable)"), "-")
+       else
        (model, (if obs == exp then "ok" else "bad:expected " ++ exp), "-")
      | _, _, _, _, _ => bad)
   | _ => bad
